@@ -26,6 +26,11 @@ impl StateMachine<'_> {
     /// Check for the old mode|new mode lines and cache their info for later use.
     pub fn handle_diff_header_mode_line(&mut self) -> std::io::Result<bool> {
         let mut handled_line = false;
+        // Mode lines follow a 'diff' line. Anywhere else a line starting like that is not one
+        // (and must not start a diff header, whose other lines are skipped).
+        if !matches!(self.state, State::DiffHeader(_)) {
+            return Ok(false);
+        }
         if let Some(line_suf) = self.line.strip_prefix("old mode ") {
             self.state = State::DiffHeader(DiffType::Unified);
             if self.should_handle() && !self.config.color_only {
